@@ -99,4 +99,27 @@ var checkSpecs = map[string]CheckSpec{
 		{Pkg: "cors", Entry: "zzH_C15_api", Reach: []string{"twin"}},
 	}, Bounds: map[string]string{"quick": scenarioBoundsQuick + "; twin configurations: reversed lists / rotated with a duplicate / header names upper-cased and normalisable methods respelled / lower-cased plus safelisted methods and response-header names added / every element doubled / reversed+upper-cased (all six in the lists, PNA and dispatch scenarios; one or two per byte-level scenario)", "thorough": scenarioBoundsThorough + "; all six twins in every scenario"}, Outside: scenarioOutside + "; permutations other than reversal and rotation for lists longer than 3",
 		Explain: "the middleware built from the twin configuration must answer the same symbolic request identically (Config() values are deliberately not compared)"},
+	"C07": {ID: "C07", Harnesses: []HarnessSpec{
+		{Pkg: "cors", Entry: "zzH_C07_api", Reach: []string{"interfered", "config-checked", "served"}},
+	}, Bounds: map[string]string{
+		"quick":    "3 initial states (passthrough, A, B) x debug x 8 requests (actual, two preflights, non-CORS OPTIONS; origin allowed by both / by B only); at every point where the request releases the lock or calls out, an environment operation chosen among {none, SetDebug(true), SetDebug(false), Reconfigure(nil|A|B|invalid), Config()}, at most 2 state-changing operations per request; A and B differ in origins, credentials, methods, headers, max-age, status, expose list, PNA",
+		"thorough": "at most 3 state-changing operations per request",
+	}, Outside: "the Go memory model below mutex-ordered accesses, compiler reordering, the real scheduler and the race detector (another technique family: not applicable here); more interfering operations than the bound; requests other than the eight; interference in the middle of a critical section (excluded by the lock-discipline check, which is what makes the reduction to these points valid)",
+		Explain: "(1) lock discipline: the engine's RWMutex model flags any access to a field of the shared Middleware without the appropriate lock, any store into a published configuration, any lock mismatch, on every explored path; (2) the response under a solver-chosen schedule of interfering operations must equal the response of one single (configuration, debug) state current during the request; Config() under interference must be the normal form of the current state"},
+	"C17": {ID: "C17", Harnesses: []HarnessSpec{
+		{Pkg: "cors", Entry: "zzH_C17_serve", Reach: []string{"served"}},
+		{Pkg: "cors", Entry: "zzH_C17_config", Reach: []string{"accepted", "rejected", "accepted-symbolic"}},
+		{Pkg: "origins", Entry: "zzH_C17_parse", Reach: []string{"parsed", "long"}, Secondary: true},
+		{Pkg: "origins", Entry: "zzH_C13_S", Reach: []string{"accepted", "rejected"}, Secondary: true},
+		{Pkg: "headers", Entry: "zzH_C14_unit", Reach: []string{"approved", "rejected"}, Secondary: true},
+		{Pkg: "cfgerrors", Entry: "zzH_C19_unit", Reach: []string{"exhausted"}, Secondary: true},
+	}, Bounds: map[string]string{
+		"quick":    "every indexing, slicing, dereference, type assertion, division and explicit panic executed on any explored path is an obligation. serve: dispatch / header / origin scenarios with a nil header map, nil and empty value lists, odd pre-set writer state, and an Origin value of any length from 401 bytes to 1 MiB; config: junk and symbolic atoms (<=5-byte symbolic origin pattern with IDNA/netip/PSL answering arbitrarily, <=3-byte symbolic names), nil and empty lists, symbolic 64-bit integers, through NewMiddleware, Reconfigure, Config, cfgerrors.All (incl. All(nil)); parse: origins.Parse + Tree.Contains on <=14 symbolic bytes and on any length up to 1 MiB; plus the unit harnesses of C13 (ParsePattern, <=12 bytes), C14 (headers.Check) and C19 (All)",
+		"thorough": "origins.Parse <=17 bytes, ParsePattern <=15 bytes, thorough shapes of C14/C19",
+	}, Outside: "inputs longer than the bounds except through the length-cap path; ACRH field lines longer than C14's bounds; panics inside IDNA/netip/PSL (run natively on concrete hosts, stubbed on symbolic ones); stack exhaustion; the other properties' harnesses also treat any panic as a violation of their own property",
+		Explain: "panic-freedom is a global obligation of the engine; these harnesses drive the exported surface with inputs not constrained by validity assumptions"},
+	"C18": {ID: "C18", Harnesses: []HarnessSpec{
+		{Pkg: "cors", Entry: "zzH_C18_api", Reach: []string{"counted"}, EngineOnlyOK: true},
+	}, Bounds: map[string]string{"quick": scenarioBoundsQuick + " (origin, method, header and PNA scenarios)", "thorough": scenarioBoundsThorough}, Outside: "the runtime's real allocation counts (escape analysis and the allocator are not in the SSA form: not applicable to this technique); sizes above the bounds (a per-byte or per-element allocation shows up at these sizes, a threshold-triggered one above the bound does not)",
+		Explain: "allocation-site events (make, new, closures, boxing of non-pointers, append growth, string building, Header.Add/Set, modelled allocating callees) are counted inside ServeHTTP, the harness's own writer/handler excluded; all paths that take the same branches in package cors must have the same count whatever the internal scanning loops did, and the count must be <= 16"},
 }
